@@ -98,6 +98,8 @@ Bad(e) ==
     [] e.k = "bigclone" -> {n \in {"BigCloneOK"} : ~BigCloneOK(e)}
     [] e.k = "bigop" -> {n \in {"BigOpOK", "NoMoveOK"} : IF n = "BigOpOK" THEN ~BigOpOK(e) ELSE ~NoMoveOK(e)}
     [] e.k = "shrink" -> {n \in {"ShrinkOK"} : ~ShrinkOK(e)}
+    \* a long static text: constructor, clone, truncate, pop, clear borrow without any allocation; the first write moves; the text itself is never written
+    [] e.k = "bigstatic" -> {n \in {"BigStaticOK"} : ~(e.ctor /\ e.cloned /\ e.truncated /\ e.popped /\ e.cleared /\ e.quiet /\ e.moved /\ e.pristine)}
     [] e.k = "bigsize" -> {n \in {"BigSizeOK"} : ~BigSizeOK(e)}
     [] OTHER -> {}
 \* the oracle itself: std must agree with the specification (else the specification is wrong)
